@@ -239,3 +239,13 @@ func vh_C18_L4_read_deadline() {
 	vassert(n == 2 && rerr == nil, "a message that arrived while the deadline error was posted is delivered")
 	vcover("end")
 }
+
+// C18.L5: a blocking write that fails after having waited - at its deadline, with other calls
+// going on around it - has no side effects: its number is given back, nothing is queued, the
+// gate stays usable (= C20.L9), and acknowledgements processed meanwhile are kept (= C15.L7).
+func vh_C18_L5_failed_parked_write_has_no_side_effects() {
+	vh_C20_L9_parked_write_fails_while_others_go_on()
+}
+func vh_C18_L5_failed_parked_write_keeps_concurrent_acks() {
+	vh_C15_L7_failed_blocking_write_keeps_concurrent_release()
+}
